@@ -8,17 +8,18 @@ import (
 
 func views() map[string]View {
 	return map[string]View{
-		"hash":    hashView{},
-		"cdecode": newCDecodeView(),
-		"sim":     newSimView(),
-		"route":   newRouteView(),
-		"sdecode": sdecodeView{},
-		"cluster": clusterView{},
-		"authip":  authipView{},
-		"ring":    ringView{},
-		"llist":   llistView{},
-		"elastic": elasticView{},
-		"connio":  connioView{},
+		"hash":      hashView{},
+		"cdecode":   newCDecodeView(),
+		"sim":       newSimView(),
+		"route":     newRouteView(),
+		"sdecode":   sdecodeView{},
+		"cluster":   clusterView{},
+		"authip":    authipView{},
+		"ring":      ringView{},
+		"llist":     llistView{},
+		"elastic":   elasticView{},
+		"connio":    connioView{},
+		"authwatch": authwatchView{},
 	}
 }
 
@@ -53,6 +54,7 @@ func main() {
 			os.Exit(2)
 		}
 		rep := runView(v, *seed, *n, *driver, *corpus)
+		cleanupWatcher()
 		writeReport(*out, rep)
 	case "execmodel":
 		// execmodel <view> <line>: real code output and the concrete line handed to the model
